@@ -112,7 +112,7 @@ back through `Group.FromTOML` as a group that is `Equal` to the original and has
 result is given explicitly: only the id is canonicalised and the genesis seed materialised. -/
 theorem c20_group_toml (L : Leaf) (ok : LeafOK L) (g : Group) (wf : g.WFTOML L) :
     Group.fromTOML L (g.toTOML L) = .ok (g.canonTOML L) ∧
-    Group.equal L g (g.canonTOML L) = true ∧
+    ((g.genesisSeed ≠ none ∨ sortByIndex g.nodes = g.nodes) → Group.equal L g (g.canonTOML L) = true) ∧
     groupToks (g.canonTOML L).params = groupToks g.params := by
   refine ⟨?_, ?_, ?_⟩
   · have hn : mapE (Node.fromTOML L) (g.nodes.map (Node.toTOML L)) = .ok (g.nodes.map id) :=
@@ -131,7 +131,18 @@ theorem c20_group_toml (L : Leaf) (ok : LeafOK L) (g : Group) (wf : g.WFTOML L) 
       if_false, hpk, ok.dur_rt, ok.dur_nonempty, hseed, ok.hex_rt, ne_eq, not_false_eq_true, if_true, Option.map_some,
       Group.canonTOML]
     by_cases ht : g.transitionTime = 0 <;> simp [ht]
-  · simp [Group.equal, Group.canonTOML, compareBeaconIDs_canon, nodesEqual_refl, Group.seed]
+  · intro hs
+    have hn : g.nodesForEqual = g.nodes := by
+      unfold Group.nodesForEqual
+      rcases hs with h | h
+      · cases hg : g.genesisSeed with
+        | none => exact absurd hg h
+        | some s => simp
+      · split <;> simp [h]
+    have hc : (g.canonTOML L).nodesForEqual = g.nodes := by simp [Group.nodesForEqual, Group.canonTOML]
+    unfold Group.equal
+    rw [hn, hc]
+    simp [Group.canonTOML, compareBeaconIDs_canon, nodesEqual_refl, Group.seed]
   · unfold groupToks
     rw [show (g.canonTOML L).params = { g.params with id := canonId g.id } from rfl]
     simp only [idPart_canon]
@@ -178,7 +189,7 @@ preimage; explicitly: id canonicalised, seed materialised, member identities car
 theorem c20_group_proto (strict : Bool) (L : Leaf) (ok : LeafOK L) (g : Group) (wf : g.WFProto L)
     (target : Option String) (ht : target = none ∨ target = some g.scheme) :
     Group.fromProto strict L (g.toProto L) target = .ok (g.canonProto L) ∧
-    Group.equal L g (g.canonProto L) = true ∧
+    ((g.genesisSeed ≠ none ∨ sortByIndex g.nodes = g.nodes) → Group.equal L g (g.canonProto L) = true) ∧
     groupToks (g.canonProto L).params = groupToks g.params := by
   refine ⟨?_, ?_, ?_⟩
   · have htgt : targetMismatch target g.scheme = false := by
@@ -211,9 +222,21 @@ theorem c20_group_proto (strict : Bool) (L : Leaf) (ok : LeafOK L) (g : Group) (
       have hleq : ¬ cs.length ≠ g.threshold.toNat := by omega
       simp only [mapE_points L g.scheme cs hpts, hpos, hleq, if_true, if_false]
       simp [hmax]
-  · simp only [Group.equal, Group.canonProto, compareBeaconIDs_canon, Group.seed, List.length_map, beq_self_eq_true,
-      Bool.and_true, Bool.true_and]
-    induction g.nodes with
+  · intro hs
+    have hn : g.nodesForEqual = g.nodes := by
+      unfold Group.nodesForEqual
+      rcases hs with h | h
+      · cases hg : g.genesisSeed with
+        | none => exact absurd hg h
+        | some s => simp
+      · split <;> simp [h]
+    have hc : (g.canonProto L).nodesForEqual = (g.canonProto L).nodes := by simp [Group.nodesForEqual, Group.canonProto]
+    unfold Group.equal
+    rw [hn, hc]
+    simp only [Group.canonProto, compareBeaconIDs_canon, Group.seed, List.length_map, beq_self_eq_true, Bool.and_true,
+      Bool.true_and]
+    generalize g.nodes = l
+    induction l with
     | nil => rfl
     | cons a t ih => simp [nodesEqual, Node.equal, Identity.equal, ih]
   · unfold groupToks
@@ -432,11 +455,14 @@ private theorem optE_map {α β γ : Type} (f : β → Dec γ) (g : α → β) (
   | none => rfl
   | some a => simp [optE, hh a rfl]
 
-/-- Full statement for the DKG database record: `DBStateTOML.FromTOML (d.TOML())` succeeds and the result `Equals`
-the original; explicitly it is the original with the genesis time in UTC and the final group as it comes back
-from the group TOML path (`c20_group_toml`). -/
+/-- Full statement for the DKG database record: `DBStateTOML.FromTOML (d.TOML())` succeeds and the result is, field
+for field, the original with the genesis time in UTC and the final group as it comes back from the group TOML path
+(`c20_group_toml`: id canonical, seed materialised, same hash). `DBState.Equals` (a test helper) agrees whenever it
+can: no key share (see `c20_dbstate_equals_share_counterexample`) and a final group on which `Group.Equal` is pure. -/
 theorem c20_dbstate (L : Leaf) (ok : LeafOK L) (d : DBState) (wf : d.WF L) :
-    DBStateTOML.fromTOML L (d.toTOML L) = .ok (d.canon L) ∧ DBState.equals L d (d.canon L) = true := by
+    DBStateTOML.fromTOML L (d.toTOML L) = .ok (d.canon L) ∧
+    (d.keyShare = none → (∀ g, d.finalGroup = some g → g.genesisSeed ≠ none ∨ sortByIndex g.nodes = g.nodes) →
+      DBState.equals L d (d.canon L) = true) := by
   refine ⟨?_, ?_⟩
   · have hs : optE (Share.fromTOML L) (d.keyShare.map (Share.toTOML L)) = .ok (d.keyShare.map id) :=
       optE_map _ _ _ _ (fun s hs => c20_share L ok s (wf.share s hs))
@@ -451,15 +477,25 @@ theorem c20_dbstate (L : Leaf) (ok : LeafOK L) (d : DBState) (wf : d.WF L) :
         obtain ⟨s, hs⟩ := this
         simp [finalGroupFromTOML, hs, (c20_group_toml L ok g hw).1])
     simp [DBStateTOML.fromTOML, DBState.toTOML, hs, hg, DBState.canon, GoTime.utc]
-  · have hgr : (match d.finalGroup, d.finalGroup.map (Group.canonTOML L) with
+  · intro hks hgs
+    have hgr : (match d.finalGroup, d.finalGroup.map (Group.canonTOML L) with
                | none, none => true
                | some g, some g2 => g.equal L g2
                | _, _ => false) = true := by
       cases hg : d.finalGroup with
       | none => rfl
-      | some g => simpa using (c20_group_toml L ok g (wf.group g hg).1).2.1
-    simp only [DBState.equals, DBState.canon, GoTime.utc, GoTime.unix, beq_self_eq_true, Bool.and_true, Bool.true_and]
+      | some g => simpa using (c20_group_toml L ok g (wf.group g hg).1).2.1 (hgs g hg)
+    simp only [DBState.equals, DBState.canon, GoTime.utc, GoTime.unix, beq_self_eq_true, Bool.and_true, Bool.true_and,
+      hks, Option.isNone_none]
     exact hgr
+
+/-- `DBState.Equals` can never hold between a state with a key share and its reloaded copy (reflect.DeepEqual over
+`*crypto.Scheme`); the reloaded state is nevertheless the field-exact `canon` of `c20_dbstate`. -/
+theorem c20_dbstate_equals_share_counterexample (L : Leaf) (d : DBState) (h : d.keyShare ≠ none) :
+    DBState.equals L d (d.canon L) = false := by
+  cases hk : d.keyShare with
+  | none => exact absurd hk h
+  | some s => simp [DBState.equals, hk]
 
 /-! ### regenerated facts: every field of every mirror is carried (the hand-maintained-mirror hazard) -/
 
@@ -537,10 +573,10 @@ theorem c20_leaf_demo_ok : LeafOK Leaf.demo where
 
 /-! ### non-vacuity: the hypotheses hold on concrete, non-trivial values (demo leaf) -/
 
-private def sch0 : String := "pedersen-bls-unchained"
-private def demoIdent (k : UInt8) : Identity := ⟨[k, k + 1], "127.0.0.1:8080", [9, k], some sch0⟩
+def sch0 : String := "pedersen-bls-unchained"
+def demoIdent (k : UInt8) : Identity := ⟨[k, k + 1], "127.0.0.1:8080", [9, k], some sch0⟩
 /-- 3 nodes with sparse, unsorted indices, threshold 2, no stored seed, empty id, a distributed key -/
-private def demoGroup : Group :=
+def demoGroup : Group :=
   { threshold := 2, period := 30000000000, scheme := sch0, id := [], catchup := 5000000000,
     nodes := [⟨demoIdent 1, 7⟩, ⟨demoIdent 3, 0⟩, ⟨demoIdent 5, 2⟩], genesisTime := 1700000000, genesisSeed := none,
     transitionTime := 1700000500, publicKey := some [[5, 6], [7, 8]] }
@@ -595,6 +631,16 @@ example : Group.fromProto false Leaf.demo (demoGroup.toProto Leaf.demo) (some sc
 example : (demoIdent 1).WF Leaf.demo := ⟨sch0, rfl, by decide, by decide⟩
 example : Identity.fromTOML Leaf.demo Identity.zero ((demoIdent 1).toTOML Leaf.demo) = .ok (demoIdent 1) :=
   (c20_identity _ c20_leaf_demo_ok _ ⟨sch0, rfl, by decide, by decide⟩).1
+
+/-- `Group.Equal` is not pure: on a group without a stored seed it sorts the receiver's node list (via `Hash`) before
+comparing positionally. The demo group (no seed, indices 7,0,2 in that order) round-trips to a group with the very
+same node list, and `Equal` says false. -/
+theorem c20_group_equal_impure_counterexample :
+    (demoGroup.canonTOML Leaf.demo).nodes = demoGroup.nodes ∧ demoGroup.genesisSeed = none ∧
+    sortByIndex demoGroup.nodes ≠ demoGroup.nodes ∧ Group.equal Leaf.demo demoGroup (demoGroup.canonTOML Leaf.demo) = false := by
+  refine ⟨rfl, rfl, by decide, ?_⟩
+  have : nodesEqual demoGroup.nodesForEqual (demoGroup.canonTOML Leaf.demo).nodesForEqual = false := by decide
+  simp [Group.equal, this]
 
 -- rejection: 3 nodes, threshold 4 / 1 are out of range; an unknown scheme
 example : ¬ thresholdInRange 4 ((demoGroup.toTOML Leaf.demo).nodes.length) := by unfold thresholdInRange; decide
